@@ -108,7 +108,8 @@ def run(tier: str) -> int:
     n = 20 if tier == "thorough" else 5
     items = []
     progs = [(f"fixed:{k}", v, []) for k, v in FIXED.items()]
-    progs += [(f"probe:{k}", v, []) for k, v in probes.call_probes()]
+    cm = probes.call_matrix()
+    progs += [(f"probe:{k}", v, []) for k, v in probes.call_probes() + [x for x in cm if ":tail" in x[0] or ":ret:" in x[0]] + (cm if tier == "thorough" else cm[::5])]
     for sp in base.gen_specs(n, cfg(), tier, salt=17):
         progs.append((sp["name"], sp["sources"], sp["features"]))
     for name, src, feats in progs:
